@@ -339,3 +339,28 @@ let rec mty_of_sexp (e : sexp) : mty =
   | L (A "enum" :: vs) ->
     MEnum (List.map (function L ts -> List.map mty_of_sexp ts | A _ -> failwith "bad enum variant") vs)
   | _ -> failwith "bad mty"
+
+(* ---------- named values (text form shared with harness/src/capture.rs) ---------- *)
+let rec nvalue_of_sexp (e : sexp) : nvalue =
+  match e with
+  | L [A "b"; A "0"] -> NBool false
+  | L [A "b"; A "1"] -> NBool true
+  | L [A "i"; A k; A z] -> NInt (ikind_of_string k, z_of_hex z)
+  | L [A "f32"; A h] -> NF32 (n_of_hex h)
+  | L [A "f64"; A h] -> NF64 (n_of_hex h)
+  | L [A "c"; A h] -> NChar (n_of_hex h)
+  | L [A "s"; A h] -> NStr (bytes_of_hex h)
+  | L [A "y"; A h] -> NBytes (bytes_of_hex h)
+  | A "none" -> NNone
+  | L [A "some"; v] -> NSome (nvalue_of_sexp v)
+  | A "unit" -> NUnit
+  | L [A "us"; A n] -> NUnitStruct (bytes_of_hex n)
+  | L [A "ns"; A n; v] -> NNewtypeStruct (bytes_of_hex n, nvalue_of_sexp v)
+  | L (A "seq" :: vs) -> NSeq (List.map nvalue_of_sexp vs)
+  | L (A "tup" :: vs) -> NTuple (List.map nvalue_of_sexp vs)
+  | L (A "ts" :: A n :: vs) -> NTupleStruct (bytes_of_hex n, List.map nvalue_of_sexp vs)
+  | L (A "map" :: kvs) -> NMap (pairs (List.map nvalue_of_sexp kvs))
+  | L (A "st" :: A n :: fs) ->
+    NStruct (bytes_of_hex n, List.map (function L [A f; v] -> (bytes_of_hex f, nvalue_of_sexp v) | _ -> failwith "bad field") fs)
+  | L [A "var"; A e; A i; A vn; p] -> NVariant (bytes_of_hex e, n_of_hex i, bytes_of_hex vn, nvalue_of_sexp p)
+  | _ -> failwith "bad nvalue"
